@@ -386,6 +386,7 @@ def run_shard(sh):
             sh.counters['exhaustive shapes'] += 1
             if idx % 900 == 0:
                 sh.sample({'recipe': recipe, 'cfg': cfg})
+    long_sequence_cases(sh, quick)
     # random larger trees with many comments
     for i in range(1200 if quick else 40000):
         idx += 1
@@ -414,6 +415,35 @@ def run_shard(sh):
         sh.counters['random shapes'] += 1
         if i % 500 == 0:
             sh.sample({'recipe': recipe, 'cfg': cfg})
+
+
+def long_sequence_cases(sh, quick):
+    """sequences long enough for the printers' 'always break, skip the layout' shortcut (> ~50 elements), with comments at chosen positions"""
+    for i in range(60 if quick else 1500):
+        if not sh.mine(i):
+            continue
+        rng = V.rng_for('c09long', sh.seed, i)
+        n = rng.choice([49, 50, 51, 52, 60, 75, 120])
+        kind = rng.choice(['list', 'tuple', 'set', 'dict', 'frozenset', 'call'])
+        positions = set(rng.sample(range(n), rng.randint(1, 4)) + rng.choice([[0], [n - 1], [n - 2, n - 1], []]))
+        leaves = []
+        for j in range(n):
+            leaf = ['int', 1000 + j] if rng.random() < 0.7 else ['str', 's%d' % j]
+            if j in positions:
+                leaf = ['comment', leaf, text_for(rng, j)]
+            leaves.append(leaf)
+        if kind == 'dict':
+            recipe = ['dict', [[['int', j], leaf] for j, leaf in enumerate(leaves)]]
+        elif kind == 'call':
+            recipe = ['call', 'UT', leaves[:n // 2], [['k%d' % j, leaf] for j, leaf in enumerate(leaves[n // 2:])]]
+        else:
+            recipe = [kind, leaves]
+        if rng.random() < 0.3 and kind in ('list', 'tuple', 'set', 'dict'):
+            recipe = ['tcomment', recipe, text_for(rng, 999)]
+        cfg = {'width': rng.choice([1, 20, 79, 200, 400]), 'indent': rng.choice([4, 2, 8])}
+        if check_one(sh, recipe, cfg) is not SKIP:
+            sh.case((repr(recipe), sorted(cfg.items())))
+        sh.counters['long sequences (layout shortcut) with comments'] += 1
 
 
 def rand_shape(rng, n, hashable_only=False):
